@@ -139,7 +139,8 @@ class Workdir:
         self.close()
 
 
-def convert(workdir, deck, extra=(), name=None, keep_input=False):
+def convert(workdir, deck, extra=(), name=None, keep_input=False,
+            before=None, after=None):
     '''Run the real converter on `deck` (text) with the extra CLI arguments.
     Returns a :class:`Run`.'''
     setup()
@@ -155,6 +156,8 @@ def convert(workdir, deck, extra=(), name=None, keep_input=False):
     run = Run()
     run.deck = deck
     run.argv = ['-o', out, inp, *extra]
+    if before is not None:
+        before(inp, out)
     buf = io.StringIO()
     old_argv = sys.argv
     sys.argv = ['t4_geom_convert', *[a if a not in (inp, out) else
@@ -191,6 +194,8 @@ def convert(workdir, deck, extra=(), name=None, keep_input=False):
     finally:
         sys.argv = old_argv
     run.stdout = buf.getvalue()
+    if after is not None:
+        after(inp, out)
     if run.ok and os.path.exists(out):
         with open(out, encoding='utf-8') as fil:
             run.output = fil.read()
